@@ -18,10 +18,10 @@ pub const SPEC: FamilySpec = FamilySpec {
     property: "C07",
     cmd: "c07",
     profile: Profile::Bytes,
-    fams: &[Fam::Open, Fam::Panic],
+    fams: &[Fam::Open, Fam::Alive, Fam::Panic],
     stall_is_violation: false,
     runs_quick: 16_000,
-    runs_thorough: 800_000,
+    runs_thorough: 3_200_000,
     rule: "one case = one execution of (a) the general workload with 1-8 concurrent opens from both sides, target hosts of 0..300 arbitrary bytes and edge ports; (b) scripted-RNG runs that hand the endpoint id 0 and ids of live flows; \
 (c) collision runs: both endpoints draw the same ids at the same moment, max_flow_id_retries 1..5; (d) a raw peer that resets the first k in 0..=R+1 Connects, or sends Connect with id 0 / an id in use. \
 Oracle: one stream per successful request on each side, target bytes identical, initial credit == advertised window (hook accessor and black-box count), no Connect with id 0 / live id, at most R Connects per request, \
